@@ -235,7 +235,11 @@ def main():
         if a.fn and not re.search(a.fn, name):
             continue
         if relfile not in files:
-            files[relfile] = rustscan.RustFile(os.path.join(REPO, relfile))
+            if "#quote:" in relfile:
+                import extract
+                files[relfile] = extract.Unit(units[0], REPO).rf(relfile)
+            else:
+                files[relfile] = rustscan.RustFile(os.path.join(REPO, relfile))
         rf = files[relfile]
         items = rf.find_fn(ctx, name)
         if len(items) != 1:
@@ -246,7 +250,10 @@ def main():
             if (off, new) in seen:
                 continue
             seen.add((off, new))
-            muts.append((relfile, off, old, new, kind, "%s::%s" % (ctx, name), us))
+            if hasattr(rf, "quote_delta"):
+                muts.append((rf.quote_base, off + rf.quote_delta, old, new, kind, "%s::%s" % (ctx, name), us))
+            else:
+                muts.append((relfile, off, old, new, kind, "%s::%s" % (ctx, name), us))
     if a.kinds:
         ks = set(a.kinds.split(","))
         muts = [m for m in muts if m[4] in ks]
